@@ -12,7 +12,7 @@ PROP = "C05"
 LEVEL = "exploration"
 RULE = (
     "seeded piecewise-stationary (y_true,y_pred) histories (lengths 20-400, plus short binary "
-    "prefixes of length 4-16; plus - index-derived, not random - every agreement sequence of length 1-9 (thorough: 1-13) for "
+    "prefixes of length 4-16; plus STEPD with levels down to 1e-300 on collapse histories; plus - index-derived, not random - every agreement sequence of length 1-9 (thorough: 1-13) for "
     "two small configurations per detector) x randomised n_threshold/window and thresholds for DDM, EDDM, STEPD; "
     "after every update state and retraining_recs are compared with the from-scratch executable "
     "specification of the current epoch. A run is non-trivial if it contains >=1 drift and reaches "
@@ -27,7 +27,7 @@ def scenarios(tier):
     k = 1 if tier == "quick" else 12
     # "enum": index-derived (not random) enumeration of ALL agreement sequences of length 1..ENUM_N for a few small
     # configurations per detector - the property's own quantifier for short sequences; supplementary to the seeded search
-    return [("ddm", 500 * k), ("eddm", 500 * k), ("stepd", 350 * k), ("short", 600 * k), ("enum", ENUM_TOTAL if tier == "quick" else ENUM_TOTAL_THOROUGH)]
+    return [("ddm", 500 * k), ("eddm", 500 * k), ("stepd", 350 * k), ("short", 600 * k), ("stepd_tiny", 160 * k), ("enum", ENUM_TOTAL if tier == "quick" else ENUM_TOTAL_THOROUGH)]
 
 
 ENUM_CFGS = [
@@ -84,6 +84,20 @@ def gen(rng, scenario, tier):
             yt = rng.randint(0, 1)
             ev.append([yt, yt if rng.random() < p else 1 - yt])
         return {"cfg": cfg, "events": ev}
+    if scenario == "stepd_tiny":
+        # levels so small that the p-value lattice near 0 (multiples of 2**-53) decides: after a long accurate phase the
+        # accuracy collapses, the statistic passes ~8.3 and 1 - Phi(T) becomes exactly 0, which is below any positive level
+        w = rng.randint(30, 70)
+        ad = rng.choice([5e-17, 1e-17, 1e-20, 1e-300, 2e-16, 1e-15, 1e-12])
+        aw = rng.choice([0.05, 1e-3, ad * 4, ad])
+        good, bad = rng.randint(2 * w, 5 * w), rng.randint(w, 2 * w)
+        acc_good, acc_bad = rng.choice([0.99, 0.97, 0.95]), rng.choice([0.0, 0.02, 0.1])
+        ev = []
+        for i in range(good + bad + rng.randint(0, w)):
+            yt = rng.randint(0, 1)
+            ok = rng.random() < (acc_good if i < good or i >= good + bad else acc_bad)
+            ev.append([yt, yt if ok else 1 - yt])
+        return {"cfg": {"det": "stepd", "window_size": w, "alpha_warning": aw, "alpha_drift": ad}, "events": ev}
     cfg = _cfg(rng, scenario)
     ev, _ = workload.outcomes(rng, rng.randint(20, 400))
     return {"cfg": cfg, "events": ev}
@@ -123,6 +137,12 @@ def run(case, ctx):
     prev = None
     saw_warning = False
     warn_gap = 0  # warning -> None -> warning inside one epoch
+    tol = TOL
+    if name == "stepd":
+        # near 0 the p-value 1 - Phi(T) lives on a lattice of spacing 2**-53, so a level far below 1e-9 is still decided
+        # with a wide relative margin: scale the near-tie tolerance to the smallest positive level
+        pos = [a for a in (cfg["alpha_warning"], cfg["alpha_drift"]) if a > 0]
+        tol = min([TOL] + [1e-3 * a for a in pos])
     for t, (yt, yp) in enumerate(case["events"]):
         ctx.step = t
         if prev == "drift":
@@ -138,7 +158,7 @@ def run(case, ctx):
             # a floating-point near-tie is not judged; an EXACT tie (both sides bit-equal, e.g. 0 >= 0 on an all-correct
             # prefix) is judged for DDM and STEPD, whose docstrings state the comparison operator; EDDM's docstring
             # (strict <) contradicts its code (<=), so its exact ties are not judged either (DESIGN.md 9.5)
-            if margin <= TOL and not (margin == 0.0 and name != "eddm"):
+            if margin <= tol and not (margin == 0.0 and name != "eddm"):
                 ctx.near_tie()
             ctx.violation("state", f"C05:{name}:state",
                           f"after sample {t} (epoch {epoch_no}, n={len(epoch)}) spec says {exp_state!r}, detector says {got!r}; cfg={cfg}")
